@@ -52,12 +52,12 @@ def ledger_cases(ctx):
     for kind in ("A", "L", "B"):
         for name, keys in (("dup", c13.ALPHA1), ("coll", coll)):
             for j in range(per):
-                g = c13.Gen(rng, keys, kind)
+                g = c13.Gen(rng, keys, kind, alias=False)
                 n = rng.randrange(40, 100) if (name == "coll" and j % 6 == 0) else rng.randrange(1, 40)
                 lines.append("htled %s %s" % (kind, g.seq(n, 0.75 if n >= 40 else 0.3)))
         for j in range(per):
             keys = [c13.random_key(rng) for _ in range(rng.choice([2, 4, 8, 24]))]
-            g = c13.Gen(rng, keys, kind)
+            g = c13.Gen(rng, keys, kind, alias=False)
             lines.append("htled %s %s" % (kind, g.seq(rng.randrange(1, 40), 0.4)))
     return HARNESS, lines
 
